@@ -35,6 +35,11 @@ from streamz.dataframe import DataFrame, Series
 from streamz.dataframe import aggregations as AG
 
 RTOL = ATOL = 1e-9
+# Absolute tolerance in force while a table with a constant, not exactly representable x column is compared: the running
+# sums of squares of the streaming variance cancel (error of the order n * eps * x**2 in the variance, its square root in
+# the standard deviation).  How accurate a streaming variance has to be is not the properties' subject; that it is a
+# number where pandas has one (not NaN from a slightly negative variance) still is.
+TOL = {'atol': ATOL}
 EPOCH = pd.Timestamp('2000-01-01')
 NO = object()                      # "no start= given"
 
@@ -66,6 +71,10 @@ def gen_table(rng, n=None, time=None, nan=False):
     if time is None:
         time = rng.random() < 0.5
     x = [rng.randrange(-12, 13) / 4.0 for _ in range(n)]
+    if rng.random() < 0.06:
+        # a (nearly) constant column of a value that is not exactly representable: sums of squares cancel badly
+        c = rng.choice([0.1, 0.3])
+        x = [c for _ in range(n)]
     y = [rng.randrange(0, 6) for _ in range(n)]
     g = _keys(rng, n, ['a', 'b', 'c', 'd'][:rng.choice([2, 3, 3, 4])], rng.choice(['iid', 'runs', 'bookend']))
     h = _keys(rng, n, [0, 1, 2][:rng.choice([2, 3])], rng.choice(['iid', 'runs', 'bookend']))
@@ -681,6 +690,13 @@ def p_onepass(root, op):
 # comparison
 # --------------------------------------------------------------------------
 
+def set_tolerance(tab):
+    xs = [v for v in tab['x'] if v is not None]
+    ill = len(xs) > 1 and len(set(xs)) == 1 and xs[0] not in (0.0,) and float(xs[0]) * 4 != int(float(xs[0]) * 4)
+    TOL['atol'] = 1e-6 if ill else ATOL
+    return ill
+
+
 def _is_scalar(v):
     return isinstance(v, (int, float, bool, np.generic)) or v is None or v is pd.NaT
 
@@ -697,7 +713,7 @@ def _vals_equal(a, b):
     except (TypeError, ValueError):
         fa = fb = None
     if fa is not None:
-        ok = np.isclose(fa, fb, rtol=RTOL, atol=ATOL, equal_nan=True)
+        ok = np.isclose(fa, fb, rtol=RTOL, atol=TOL['atol'], equal_nan=True)
         return None if ok.all() else 'values differ'
     for u, v in zip(a.ravel().tolist(), b.ravel().tolist()):
         if not _label_eq(u, v):
@@ -716,7 +732,7 @@ def _label_eq(u, v):
         pass
     if isinstance(u, (int, float, np.number)) and isinstance(v, (int, float, np.number)) \
             and not isinstance(u, bool) and not isinstance(v, bool):
-        return bool(np.isclose(float(u), float(v), rtol=RTOL, atol=ATOL))
+        return bool(np.isclose(float(u), float(v), rtol=RTOL, atol=TOL['atol']))
     try:
         return bool(u == v)
     except Exception:                                  # noqa: BLE001
@@ -956,6 +972,7 @@ def run_with_example_fallback(case, ctx, **kw):
     op, tab = case['op'], case['tab']
     df = table_df(tab)
     batches = split(df, case['sizes'])
+    set_tolerance(tab)
     tr = run_pipeline(op, example_df(tab, case.get('ex', 'rows')), batches, **kw)
     if tr.build_error is not None and case.get('ex') == 'empty':
         ctx.count('build_exception_on_empty_example')
